@@ -2,7 +2,53 @@
 import json
 import os
 from vcommon import Ctx
-from logcases import eval_log_cases
+import re
+from logcases import eval_log_cases, cz, c_list
+from vcommon import coq_bool
+
+TEND = {"parked": "EParked", "held": "EHeld", "spin": "ESpin", "lost": "ELost"}
+
+
+def c_tblock(b):
+    acts = []
+    for a in b["acts"]:
+        if a["a"] == "append":
+            acts.append("AAppend")
+        elif a["a"] == "roll-append":
+            acts.append("ARollAppend")
+        else:
+            acts.append("ATrunc %s" % cz(a["k"]))
+    segs = c_list(["(%s, %s)" % (cz(x["len"]), coq_bool(x["sealed"])) for x in b["segs"]])
+    return "mkTb %s %s %s %s %s" % (c_list(acts), coq_bool(b["hold"]), TEND[b["end"]], cz(b["got"]), segs)
+
+
+def eval_tail(ctx, cases, shard=100):
+    """-> list of (case, block index) where the real log + reader and the LTS of Log/TailWait.v differ."""
+    jobs = []
+    for s in range(0, len(cases), shard):
+        part = cases[s:s + shard]
+        txt = "From LB Require Import Base.Prelude Log.TailWait Log.TailCheck.\nOpen Scope Z_scope.\n"
+        sentinel = "(3, [mkTb [AAppend] false EParked 12345 []])"
+        txt += "Definition CS : list (Z * list tblock) := [\n %s].\n" % ";\n ".join(
+            ["(%s, %s)" % (cz(c["cap"]), c_list([c_tblock(b) for b in c["blocks"]])) for c in part] + [sentinel])
+        txt += "Definition M := Eval vm_compute in tcases_mismatches CS 0.\nPrint M.\n"
+        jobs.append((("tail_%d" % len(jobs), txt), part))
+    outs = ctx.coq_eval_many([j[0] for j in jobs], jobs=8)
+    mism = []
+    for out, (_, part) in zip(outs, jobs):
+        if out is None:
+            continue
+        m = re.search(r"M\s*=\s*(.*?)\n\s*:", out, re.S)
+        if not m:
+            ctx.tie_problems.append({"what": "could not parse the model's answer (tail reader)", "detail": out[-500:]})
+            continue
+        pairs = [(int(a), int(b)) for a, b in re.findall(r"\(\s*(\d+)(?:%nat)?\s*,\s*(\d+)(?:%nat)?\s*\)", m.group(1))]
+        if (len(part), 0) not in pairs:
+            ctx.tie_problems.append({"what": "the model evaluation (tail reader) did not report the sentinel mismatch: its answer cannot be trusted", "detail": out[-300:]})
+        for a, b in pairs:
+            if a < len(part):
+                mism.append((part[a], b))
+    return mism
 
 
 def nontrivial(c):
@@ -16,7 +62,7 @@ def nontrivial(c):
 
 def run(pid, tier, seed, replay):
     ctx = Ctx(pid, tier, seed)
-    ctx.trusted += ["modelled, not verified: file system and mmap behaviour (a segment is a list of records; positions are sums of frame sizes); time-based segment roll; int32 narrowing of index entries (guarded)"]
+    ctx.trusted += ["modelled, not verified: file system and mmap behaviour (a segment is a list of records; positions are sums of frame sizes); int32 narrowing of index entries (guarded)", "the tail-reader LTS (Log/TailWait.v) has one transition per critical section of the reader loop and of the writers; the Go scheduler is not modelled: the driver controls the one window that matters (between the reader's look at the segment list and segment.waitForData) with a verif hook and compares at quiescent points only"]
     ctx.coq_cone("Properties/C01.v")
     env = {"VERIF_PROFILE": "c01", "VERIF_N": 240 if tier == "quick" else 4000}
     if replay:
@@ -28,8 +74,14 @@ def run(pid, tier, seed, replay):
         env["VERIF_REPLAY_CASES"] = cf
     lines = ctx.go_driver("server/commitlog", ["commitlog/logdrv_test.go"], "^TestVerifLog$", env=env, timeout=1500)
     cases = [l for l in lines if l.get("k") == "log"]
+    # the blocking tail reader against appends, size and age rolls, truncations (verif hook: the reader is held in front of waitForData)
+    lines2 = ctx.go_driver("server/commitlog", ["commitlog/tailwait_test.go"], "^TestVerifTailWait$", env={"VERIF_N": 150 if tier == "quick" else 3000}, tags="verif", timeout=1500)
+    tcases = [l for l in lines2 if l.get("k") == "tail"]
+    for c, j in eval_tail(ctx, tcases)[:3]:
+        ctx.tie_problems.append({"what": "correspondence Log.TailCheck.tcases_mismatches: tail-reader case %d differs from the LTS at block %d (%s)" % (c["id"], j, json.dumps(c["blocks"][j])[:300]),
+                                 "first": [{"case": {"k": "tail", "id": c["id"], "cap": c["cap"], "blocks": c["blocks"][:j + 1]}}]})
     dist = {}
-    for l in lines:
+    for l in lines + lines2:
         if l.get("k") == "stat":
             dist.update(l["dist"])
         if l.get("k") == "violation":
@@ -46,7 +98,7 @@ def run(pid, tier, seed, replay):
             canon.add(json.dumps([c["maxb"], [[o["op"], o.get("o"), len(o.get("msgs") or o.get("recs") or [])] for o in c["ops"] if o["op"] not in ("state", "read")]]))
     samples = [cases[0]] if cases else []
     return ctx.finish(
-        coverage={"input_distribution": dist, "histories": len(cases), "observations_compared": nobs, "case_shards": nshards},
+        coverage={"input_distribution": dist, "tail_reader_cases": len(tcases), "tail_reader_blocks": sum(len(c["blocks"]) for c in tcases), "histories": len(cases), "observations_compared": nobs, "case_shards": nshards},
         samples=samples,
-        rule="operation histories (append batches 1-5 with nil/empty/short/large keys, values, headers; message-set appends; truncations at random offsets, segment bases, the end; close/reopen; HW moves) over segment limits 70..400 bytes and unlimited, each followed by uncommitted and committed readers from every segment boundary +-1, 0, hw, hw+1, newest, newest+1; non-trivial = >=3 records and (a truncate, a reopen or a segment limit that forces rolls); distinct by (limit, op kinds, offsets, batch sizes)",
+        rule="(tail) a real Reader.ReadMessage loop in its own goroutine, held by the verif hook in front of segment.waitForData while the driver appends, rolls segments by size and by age (package clock under the driver's control) and truncates, then released until it parks or spins: delivered count, end state and segments compared with the LTS of Log/TailWait.v after every block, and a parked or spinning reader with undelivered messages is a violation; (histories) operation histories (append batches 1-5 with nil/empty/short/large keys, values, headers; message-set appends; truncations at random offsets, segment bases, the end; close/reopen; HW moves) over segment limits 70..400 bytes and unlimited, each followed by uncommitted and committed readers from every segment boundary +-1, 0, hw, hw+1, newest, newest+1; non-trivial = >=3 records and (a truncate, a reopen or a segment limit that forces rolls); distinct by (limit, op kinds, offsets, batch sizes)",
         evaluations=len(cases), distinct_nontrivial=len(canon), traces=len(cases))
